@@ -102,7 +102,7 @@ def hs_cases(tr):
             w = e.split()
             if w[0] == "sock": seen.add(w[1])
             if w[0] in ("cancelled", "cancelreq") and len(w) > 2: dirty.add(w[2])
-        cc = line.endswith(" +cc")
+        cc = line.endswith((" +cc", " +ccb"))
         if ws and (ws[0] in ("cancel", "close") or cc):
             dirty |= {k for k in seen if k not in out or out[k]["outcome"] in (None, "need")}
             if cc: dirty.add(ws[1])
@@ -184,7 +184,7 @@ def rot_ops(tr, hosts):
     host = None
     for i, (line, evs, st, t) in enumerate(tr):
         ws = line.split(); cmd = ws[0] if ws else ""
-        if cmd in ("cancel", "close") or line.endswith(" +cc"): break
+        if cmd in ("cancel", "close") or line.endswith((" +cc", " +ccb")): break
         failed_before = False
         for e in evs:
             w = e.split()
